@@ -491,6 +491,7 @@ func c11Execute(c *core.Ctx, sc *C11Scenario, sh gen.Shape, data, pre gen.Data, 
 				}
 			}
 			if bf := cc.BloomFilter(); bf != nil {
+				distinct := map[string]bool{}
 				for _, val := range columnValues(rows, ci) {
 					if val.IsNull() {
 						continue
@@ -499,6 +500,15 @@ func c11Execute(c *core.Ctx, sc *C11Scenario, sh gen.Shape, data, pre gen.Data, 
 					if err != nil || !ok {
 						return nil, nil, core.Violate("C11/bloom-false-negative/"+sc.Source, "row group %d column %d: value %s: ok=%v err=%v", gi, ci, gen.FmtValue(val), ok, err)
 					}
+					distinct[string(val.Bytes())] = true
+				}
+				// the bits-per-value setting: a filter holding n distinct values is at
+				// least what the configuration prescribes for n values (both paths size
+				// it for the dictionary length or for the value count of the chunk)
+				if v := bloomUndersized("C11", bloomSpecs(sc.DstW), f.Schema().Columns()[ci], len(distinct), bf.Size()); v != nil {
+					v.Class += "/" + sc.Source
+					v.Detail = fmt.Sprintf("row group %d column %d: %s", gi, ci, v.Detail)
+					return nil, nil, v
 				}
 			}
 		}
@@ -692,4 +702,26 @@ func boundString(ix parquet.ColumnIndex, p int) (s string) {
 		}
 	}()
 	return fmt.Sprintf("%x..%x", ix.MinValue(p).Bytes(), ix.MaxValue(p).Bytes())
+}
+
+// bloomUndersized checks a filter's size against the configured bits per value.
+func bloomUndersized(prop string, specs []gen.BloomSpec, path []string, distinct int, size int64) *core.Violation {
+	for _, b := range specs {
+		if fmt.Sprint(b.Path) != fmt.Sprint(path) {
+			continue
+		}
+		if want := int64(parquet.SplitBlockFilter(b.Bits, path...).Size(int64(distinct))); size < want {
+			return core.Violate(prop+"/bloom-filter-undersized", "the filter has %d bytes for %d distinct values; %d bits per value prescribe at least %d bytes", size, distinct, b.Bits, want)
+		}
+	}
+	return nil
+}
+
+// bloomSpecs returns the filters whose stored size is the size of the bit set
+// (a compressed filter reports its compressed length).
+func bloomSpecs(w gen.WOpts) []gen.BloomSpec {
+	if w.BloomGzip {
+		return nil
+	}
+	return w.Bloom
 }
